@@ -23,7 +23,8 @@ for d in dirs:
         print(name, prop, "PATCH-DOES-NOT-APPLY", p.stderr.strip()[:200]); continue
     t0 = time.time()
     try:
-        q = subprocess.run(["/verif/check", prop, tier], capture_output=True, text=True, cwd="/verif")
+        q = subprocess.run(["/verif/check", prop, tier], capture_output=True, text=True, cwd="/verif",
+                           env=dict(os.environ, VERIF_EVIDENCE_DIR="/tmp/verif-seeded-evidence"))
     finally:
         subprocess.run(["git", "-C", "/repo", "checkout", "--", "."], check=True)
     vio = [l for l in q.stdout.splitlines() if l.startswith("VIOLATION")]
